@@ -189,6 +189,67 @@ macro_rules! typed_ops {
     };
 }
 
+// ---- optional overloads: amount types the pinned tree does not implement (u128, i128). If a
+// tree implements them (all eight operator shapes), they must shift exactly like every other
+// amount type; if not, `all` resolves to the fallback and returns None. Autoref dispatch: the
+// `HasShift` impl on `OptShift<T>` is preferred over the `NoShift` impl on `&OptShift<T>` and
+// only applies when its bounds hold.
+struct OptShift<T>(T);
+
+/// One optional group of operator shapes for one amount type: `$has` applies when the bounds
+/// hold (the tree implements the shapes), otherwise method probing falls through to `$no` on the
+/// extra reference. The traits carry no parameter for the amount type: with one, probing could
+/// not evaluate the bounds and would not fall through.
+macro_rules! optional_group {
+    ($has:ident, $no:ident, $m:ident, $a:ty, [$($bound:tt)*], |$v:ident, $x:ident| $body:expr) => {
+        trait $has<T> {
+            fn $m(&self, a: $a) -> Option<[T; 2]>;
+        }
+        impl<T: Copy + $($bound)*> $has<T> for OptShift<T> {
+            fn $m(&self, $x: $a) -> Option<[T; 2]> {
+                let $v = self.0;
+                Some($body)
+            }
+        }
+        trait $no<T> {
+            fn $m(&self, _a: $a) -> Option<[T; 2]> {
+                None
+            }
+        }
+        impl<T> $no<T> for &OptShift<T> {}
+    };
+}
+
+use core::ops::{Shl, ShlAssign, Shr, ShrAssign};
+optional_group!(HasValU, NoValU, val_u, u128, [Shl<u128, Output = T> + Shr<u128, Output = T>], |v, a| [v << a, v >> a]);
+optional_group!(HasValI, NoValI, val_i, i128, [Shl<i128, Output = T> + Shr<i128, Output = T>], |v, a| [v << a, v >> a]);
+optional_group!(HasRefU, NoRefU, ref_u, u128, [for<'a> Shl<&'a u128, Output = T> + for<'a> Shr<&'a u128, Output = T>], |v, a| [v << &a, v >> &a]);
+optional_group!(HasRefI, NoRefI, ref_i, i128, [for<'a> Shl<&'a i128, Output = T> + for<'a> Shr<&'a i128, Output = T>], |v, a| [v << &a, v >> &a]);
+optional_group!(HasAsgU, NoAsgU, asg_u, u128, [ShlAssign<u128> + ShrAssign<u128>], |v, a| [{ let mut x = v; x <<= a; x }, { let mut x = v; x >>= a; x }]);
+optional_group!(HasAsgI, NoAsgI, asg_i, i128, [ShlAssign<i128> + ShrAssign<i128>], |v, a| [{ let mut x = v; x <<= a; x }, { let mut x = v; x >>= a; x }]);
+
+/// Autoref dispatch only works on concrete types: the probe is instantiated for a fixed set of
+/// widths. `None` = width not in the set; otherwise per group (value, ref, assign) `None` = the
+/// tree has no such overload, `Some([shl, shr])` its results.
+fn opt_probe(bits: usize, v: &[u64], a: u128, signed: bool) -> Option<[Option<[Vec<u64>; 2]>; 3]> {
+    macro_rules! at {
+        ($($b:literal),*) => {
+            match bits {
+                $( $b => {
+                    let x: Uint<$b, { ruint::nlimbs($b) }> = mk(v);
+                    let p = OptShift(x);
+                    let r = if signed { [(&p).val_i(a as i128), (&p).ref_i(a as i128), (&p).asg_i(a as i128)] } else { [(&p).val_u(a), (&p).ref_u(a), (&p).asg_u(a)] };
+                    Some(r.map(|g| g.map(|g| g.map(|y| y.as_limbs().to_vec()))))
+                } )*
+                _ => None,
+            }
+        };
+    }
+    at!(1, 8, 63, 64, 65, 127, 128, 129, 192, 256, 320)
+}
+
+const OPT_SHAPES: [&str; 6] = ["shl", "shr", "shl_ref", "shr_ref", "shl_assign", "shr_assign"];
+
 fn body<const B: usize, const L: usize>(c: &Case, rec: &mut Rec) -> R {
     type U<const B: usize, const L: usize> = Uint<B, L>;
     let v: U<B, L> = mk(&c.l[0]);
@@ -289,6 +350,40 @@ fn body<const B: usize, const L: usize>(c: &Case, rec: &mut Rec) -> R {
             rec.eqc($name, cls, &r, &$exp)?;
         }};
     }
+    // ---- optional 128-bit amount types: the low 128 bits of the Uint-typed amount (so amounts
+    // >= 2^64 with a small low half occur)
+    {
+        let a128: u128 = ua.as_limbs().iter().take(2).enumerate().fold(0u128, |acc, (i, l)| acc | (*l as u128) << (64 * i));
+        let a128 = if L < 2 { s as u128 } else { a128 };
+        for signed in [false, true] {
+            let a = if signed { a128 & (i128::MAX as u128) } else { a128 };
+            let clamp = a.min(u64::MAX as u128) as u64;
+            let (xl, _) = o_shl(&vb, clamp, B);
+            let (xr, _) = o_shr(&vb, clamp, B);
+            let (xl, xr): (U<B, L>, U<B, L>) = (mkb(&xl), mkb(&xr));
+            let got = catch(|| opt_probe(B, &c.l[0], a, signed));
+            match got {
+                Ok(None) => {}
+                Ok(Some(groups)) => {
+                    for (gi, g) in groups.iter().enumerate() {
+                        let Some(g) = g else {
+                            rec.class("optional_overload_absent:128-bit amount");
+                            continue;
+                        };
+                        rec.class("optional_overload_present:128-bit amount");
+                        rec.eval(2);
+                        for (i, l) in g.iter().enumerate() {
+                            let got: U<B, L> = mk(l);
+                            let e = if i == 0 { &xl } else { &xr };
+                            let name = format!("{}_{}", OPT_SHAPES[2 * gi + i], if signed { "i128" } else { "u128" });
+                            rec.ensure(&name, if a > u64::MAX as u128 { "value_wrong:amount_high_half_ignored" } else { "value_wrong" }, got == *e, || format!("amount {a}: got {got:?} expected {e:?}"))?;
+                        }
+                    }
+                }
+                Err(m) => rec.fail("shift_by_128_bit_amount", "panic", format!("amount {a}: {m}"))?,
+            }
+        }
+    }
     uchk!("shl_uint", v << ua, el);
     uchk!("shr_uint", v >> ua, er);
     uchk!("shl_uint_ref", v << &ua, el);
@@ -303,7 +398,7 @@ fn body<const B: usize, const L: usize>(c: &Case, rec: &mut Rec) -> R {
 fn main() {
     let spec = PropSpec {
         id: "C05",
-        rule_text: "cases (value, amount s, Uint-typed amount) per width: values from the boundary alphabet plus two-set-bit values; s biased to 0,1,63,64,65,64k,64k+-1,BITS-1,BITS,BITS+1,64*LIMBS(+1),2^32,2^63,usize::MAX, huge amounts that wrap to something small when scaled, incremented or narrowed (k*2^61+j, k*2^58+j, 2^e+j, usize::MAX-j) and uniform in [0,BITS+64*LIMBS+1]; typed operator amounts are s clamped to the type's non-negative range; Uint-typed amounts embed s, or have high limbs set (>= 2^64), or lie in [BITS,2^64); exhaustive enumeration of all values x s in 0..=BITS+66 (+6 large amounts) for BITS <= 8. Oracle: BigUint v*2^s mod 2^BITS with overflow iff v*2^s >= 2^BITS; floor(v/2^s) with overflow iff v mod 2^s != 0; sign-fill for arithmetic_shr; cyclic permutation for rotations. Non-trivial: v != 0, s > 0 and (a set bit leaves the word or s >= 64); flag-true cases are classified by how the bit left (dropped whole limb / top-limb mask / bit carry). Distinct by (width,value,s).",
+        rule_text: "cases (value, amount s, Uint-typed amount) per width: values from the boundary alphabet plus two-set-bit values; s biased to 0,1,63,64,65,64k,64k+-1,BITS-1,BITS,BITS+1,64*LIMBS(+1),2^32,2^63,usize::MAX, huge amounts that wrap to something small when scaled, incremented or narrowed (k*2^61+j, k*2^58+j, 2^e+j, usize::MAX-j) and uniform in [0,BITS+64*LIMBS+1]; typed operator amounts are s clamped to the type's non-negative range; u128 / i128 amounts (not implemented on the pinned tree, probed by autoref dispatch: if a tree implements them they are checked like the others, with amounts >= 2^64 whose low half is small); Uint-typed amounts embed s, or have high limbs set (>= 2^64), or lie in [BITS,2^64); exhaustive enumeration of all values x s in 0..=BITS+66 (+6 large amounts) for BITS <= 8. Oracle: BigUint v*2^s mod 2^BITS with overflow iff v*2^s >= 2^BITS; floor(v/2^s) with overflow iff v mod 2^s != 0; sign-fill for arithmetic_shr; cyclic permutation for rotations. Non-trivial: v != 0, s > 0 and (a set bit leaves the word or s >= 64); flag-true cases are classified by how the bit left (dropped whole limb / top-limb mask / bit carry). Distinct by (width,value,s).",
         assumptions: vec![
             "num-bigint shifts are correct (oracle)",
             "signed shift operators are only exercised with non-negative amounts (the property's stated domain)",
